@@ -226,6 +226,23 @@ impl<T: Actor> ActorRef<T> {
         result
     }
 
+    /// Waits for the reply to an `ask` whose envelope has been pushed into the mailbox.
+    ///
+    /// An envelope pushed concurrently with the actor's shutdown may never be dropped by the
+    /// mailbox receiver, so the reply channel alone cannot be relied upon to signal that no
+    /// reply is coming. Once the mailbox is closed, every reply the actor will ever send has
+    /// already been sent, so a final non-blocking check decides.
+    async fn wait_reply(
+        &self,
+        mut reply_rx: oneshot::Receiver<Box<dyn std::any::Any + Send>>,
+    ) -> Option<Box<dyn std::any::Any + Send>> {
+        tokio::select! {
+            biased;
+            reply = &mut reply_rx => reply.ok(),
+            _ = self.sender.closed() => reply_rx.try_recv().ok(),
+        }
+    }
+
     /// Sends a message to the actor and awaits a reply.
     ///
     /// The message is sent to the actor's mailbox, and this method will wait for
@@ -297,7 +314,7 @@ impl<T: Actor> ActorRef<T> {
             });
         }
 
-        match reply_rx.await {
+        match self.wait_reply(reply_rx).await.ok_or(()) {
             Ok(reply_any) => {
                 // Successfully received reply from actor
                 match reply_any.downcast::<T::Reply>() {
@@ -675,7 +692,7 @@ impl<T: Actor> ActorRef<T> {
             }
         })?;
 
-        match reply_rx.blocking_recv() {
+        match futures::executor::block_on(self.wait_reply(reply_rx)).ok_or(()) {
             Ok(reply_any) => {
                 // Successfully received reply from actor
                 match reply_any.downcast::<T::Reply>() {
